@@ -170,6 +170,18 @@ def vnadata_script(seed):
     s.op("dump_vnadata $vl")
     s.op("vx=vnadata_alloc_and_init Z 3 3 2")
     s.op("dump_vnadata $vx")
+    # an object on which no format was ever set: the savers install the
+    # default one themselves; saved in three file types one after the other
+    s.op("vy=vnadata_alloc_and_init S 2 2 2")
+    s.op("vnadata_set_frequency_vector $vy @f")
+    s.op("vnadata_set_matrix $vy 0 @m0")
+    s.op("vnadata_set_matrix $vy 1 @m1")
+    for path in ("c12y.s2p", "c12y.npd", "c12y.ts"):
+        s.op("vnadata_cksave $vy %s" % qs(path))
+        s.op("vnadata_save $vy %s" % qs(path))
+        s.op("read_file %s" % qs(path))
+        s.op("vnadata_get_format $vy")
+    s.op("dump_vnadata $vy")
     return s.text()
 
 
